@@ -416,6 +416,63 @@ def rule_failure_values(report, prog, res, rule='C16-R6'):
     report.floor(rule, n, 5)
 
 
+_MUTATORS = ('append', 'extend', 'insert', 'pop', 'remove', 'clear', 'reverse', 'sort', '__iadd__', '__setitem__')
+
+
+def inplace_param_mutations(source):
+    """(function name, parameter, line, statement text) for every statement of the *unnormalised* module source that changes an object
+    passed in as a parameter: `p += ..` (in place for a bytearray), a mutator method, a subscript store or delete -- unless the name
+    was re-bound by a plain assignment earlier in the function (`data = bytearray(data)`)."""
+    out = []
+    for f in ast.walk(ast.parse(source)):
+        if not isinstance(f, (ast.FunctionDef, ast.AsyncFunctionDef)):
+            continue
+        params = [a.arg for a in f.args.posonlyargs + f.args.args + f.args.kwonlyargs if a.arg not in ('self', 'cls')]
+        rebound = {}
+        for st in ast.walk(f):
+            if isinstance(st, ast.Assign):
+                for t in st.targets:
+                    for x in ast.walk(t):
+                        if isinstance(x, ast.Name) and isinstance(x.ctx, ast.Store) and not isinstance(t, ast.Subscript):
+                            rebound[x.id] = min(rebound.get(x.id, st.lineno), st.lineno)
+        for st in ast.walk(f):
+            hit = None
+            if isinstance(st, ast.AugAssign) and isinstance(st.target, ast.Name):
+                hit = st.target.id
+            elif isinstance(st, ast.AugAssign) and isinstance(st.target, ast.Subscript) and isinstance(st.target.value, ast.Name):
+                hit = st.target.value.id
+            elif isinstance(st, ast.Call) and isinstance(st.func, ast.Attribute) and st.func.attr in _MUTATORS and isinstance(st.func.value, ast.Name):
+                hit = st.func.value.id
+            elif isinstance(st, (ast.Assign, ast.Delete)):
+                for t in st.targets:
+                    if isinstance(t, ast.Subscript) and isinstance(t.value, ast.Name):
+                        hit = t.value.id
+            if hit in params and not (hit in rebound and rebound[hit] < st.lineno):
+                out.append((f.name, hit, st.lineno, ast.unparse(st)[:80]))
+    return out
+
+
+def rule_command_not_mutated(report, prog, rule='C16-R3'):
+    """The tag layer repeats a command by handing the *same* buffer to ContactlessFrontend.exchange() again.  Nothing below may change
+    that object: no function of the nfc.clf package (frontend, drivers, CRC helpers) modifies an argument in place -- `data += crc`
+    on a bytearray parameter makes the second attempt carry the CRC twice.  Decided on the unnormalised source (the canonical form
+    reads `x = x + e` and `x += e` alike, which is exactly the difference here).  The clean tree has no instance; an in-memory
+    variant of Device.add_crc_a shows the rule firing (canary)."""
+    n, bad = 0, []
+    for name, m in sorted(prog.modules.items()):
+        if not name.startswith('nfc.clf'):
+            continue
+        n += 1
+        for fn, param, line, text in inplace_param_mutations(m.source):
+            bad.append('%s:%d %s() changes its argument %s in place: `%s`' % (m.relpath, line, fn, param, text))
+    report.check(not bad, rule, key('nfc.clf', 'no function below exchange() modifies an argument in place (a repeated command is sent as it was)'), None,
+                 '; '.join(bad[:3]), detail='%d modules of nfc.clf' % n)
+    report.floor(rule + ' nfc.clf modules', n, 12)
+    variant = 'def add_crc_a(data):\n    crc = calculate_crc(data, len(data), 0x6363)\n    data += crc\n    return data\n'
+    twin = 'def add_crc_a(data):\n    crc = calculate_crc(data, len(data), 0x6363)\n    return data + crc\n'
+    report.canary('C16-R3 in-place canary', len(inplace_param_mutations(variant)) == 1 and not inplace_param_mutations(twin))
+
+
 def rule_tt4_dump(report, prog, rule='C16-R7'):
     """Type 4 Tag dump(): folded against a file that answers every READ BINARY with 16 octets the dump ends by itself and never hands
     READ BINARY an offset its P1 P2 cannot carry (which would be a struct.error instead of a tag command error)."""
@@ -430,6 +487,7 @@ def run(report, prog, tier):
     res = Resolver(prog)
     rule_mapping(report, prog)
     rule_tt4_dump(report, prog)
+    rule_command_not_mutated(report, prog)
     rule_escape(report, prog, res, tier)
     rule_retry(report, prog)
     rule_activate(report, prog)
